@@ -138,34 +138,50 @@ def orOne : Option Nat → Nat
   | some l => l
   | none => 1          -- `(length or 1)`; length 0 never reaches this point
 
+/-- `length is not None and length <= 0` -/
+def badLength : Option Int → Bool
+  | some l => decide (l ≤ 0)
+  | none => false
+
+/-- `start_at is not None and (0 <= start_at >= self.length or start_at + (length or 1) > self.length)` -/
+def doesNotFit (L : Nat) (len : Option Nat) : Option Nat → Bool
+  | some s => decide (s ≥ L) || decide (s + orOne len > L)
+  | none => false
+
+/-- the overlap loop of `add_field` over `potential_fields(self.field_values)` -/
+def overlapsExisting (es : List Entry) (fv : Reqs) (len : Option Nat) : Option Nat → Bool
+  | some s => (potentialFields es fv).any fun o =>
+      match o.field.startAt with
+      | some os => overlaps s (orOne len) os (orOne o.field.length)
+      | none => false
+  | none => false
+
+def newEntry (p : Path) (ident : Ident) (len startAt : Option Nat) (tags : List String) : Entry :=
+  { path := p, ident := ident,
+    field := { length := len, startAt := startAt, tags := tags, maxValue := MAX_VALUE_DEFAULT } }
+
+/-- `parent.tags.update(tags)` for every identifier of `get_field_requirements(identifier, field_values)` -/
+def addTags (fv : Reqs) (tags : List String) (parents : List Ident) (es : List Entry) : List Entry :=
+  parents.foldl (fun es pi => modifyField es pi fv fun f => { f with tags := tagUnion f.tags tags }) es
+
 def addField (st : State) (fv : Reqs) (ident : Ident) (length : Option Int) (startAt : Option Nat)
     (tags : List String) : Except Err State :=
-  if (match length with | some l => decide (l ≤ 0) | none => false) then .error .valueError else
   let len : Option Nat := length.map Int.toNat
-  if (match startAt with
-      | some s => decide (s ≥ st.length) || decide (s + orOne len > st.length)
-      | none => false) then .error .valueError else
-  if (match startAt with
-      | some s => (potentialFields st.entries fv).any fun o =>
-          match o.field.startAt with
-          | some os => overlaps s (orOne len) os (orOne o.field.length)
-          | none => false
-      | none => false) then .error .valueError else
-  let tags := tagNorm tags
-  match descend st.entries ident (fv.length + 1) [] fv with
-  | .error e => .error e
-  | .ok p =>
-    let es := insertEntry st.entries
-      { path := p, ident := ident, field := { length := len, startAt := startAt, tags := tags, maxValue := MAX_VALUE_DEFAULT } }
-    -- tags go to every field named by get_field_requirements(identifier, field_values)
-    match getField es ident fv with
-    | none => .error .unavailable
-    | some e =>
-      let parents := e.path.flatten.map (·.1)
-      if parents.any (fun pi => (getField es pi fv).isNone) then .error .unavailable else
-      let es' := parents.foldl
-        (fun es pi => modifyField es pi fv fun f => { f with tags := tagUnion f.tags tags }) es
-      .ok { st with entries := es' }
+  if badLength length then .error .valueError
+  else if doesNotFit st.length len startAt then .error .valueError
+  else if overlapsExisting st.entries fv len startAt then .error .valueError
+  else
+    match descend st.entries ident (fv.length + 1) [] fv with
+    | .error e => .error e
+    | .ok p =>
+      let es := insertEntry st.entries (newEntry p ident len startAt (tagNorm tags))
+      -- tags go to every field named by get_field_requirements(identifier, field_values)
+      match getField es ident fv with
+      | none => .error .unavailable
+      | some e =>
+        let parents := e.path.flatten.map (·.1)
+        if parents.any (fun pi => (getField es pi fv).isNone) then .error .unavailable
+        else .ok { st with entries := addTags fv (tagNorm tags) parents es }
 
 /-! ### `BitField.__call__` -/
 
